@@ -6,6 +6,7 @@ import (
 	"fmt"
 	"path/filepath"
 	"runtime"
+	"strings"
 	"sync"
 	"sync/atomic"
 	"testing"
@@ -31,7 +32,7 @@ func TestVerifC16JSON(t *testing.T) {
 	run.Floor("overlap_runs", 100)
 	dir := t.TempDir()
 	scope := []string{"tunnox-core/internal/core/storage/json"}
-	for trial := 0; trial < n && run.Violations() < 20; trial++ {
+	for trial := 0; trial < n && run.Violations() < 20 && run.Counter("leak_violations") < 3; trial++ {
 		k := ks[r.Intn(len(ks))]
 		dirty := r.Intn(2) == 0
 		spins := make([]int, k)
@@ -128,7 +129,16 @@ func TestVerifC16JSON(t *testing.T) {
 		}
 		if l := snap.Leaked(scope, nil, 2*time.Second); len(l) > 0 {
 			sum := vk.FrameSummary(l)
-			run.Violation("C16:json|goroutine-left|"+sum[0], map[string]any{"case": desc, "frames": sum, "stack": l[0].Stack})
+			run.Violation("C16:json|goroutine-left|"+c16LeakFn(sum[0]), map[string]any{"case": desc, "frames": sum, "stack": l[0].Stack})
+			run.Count("leak_violations", 1) // after 3 the test stops: every further trial would wait the full poll interval
 		}
 	}
+}
+
+// c16LeakFn strips the (varying) goroutine state from a vk.FrameSummary entry.
+func c16LeakFn(s string) string {
+	if i := strings.Index(s, "tunnox-core/"); i >= 0 {
+		return s[i:]
+	}
+	return s
 }
